@@ -46,8 +46,7 @@ def drop_worktree(wt):
 
 def run_demo(wt, d):
     env = dict(os.environ, PYTHONPATH=wt, PYTHONHASHSEED="0", PYTHONDONTWRITEBYTECODE="1")
-    demo_dir = os.path.join(wt, "_demo")
-    os.makedirs(demo_dir, exist_ok=True)
+    demo_dir = wt        # the demonstrations were written in (and check that cloudsync is imported from) the worktree root
     for f in os.listdir(d):
         if f.endswith(".py"):
             shutil.copy(os.path.join(d, f), demo_dir)
@@ -88,6 +87,14 @@ def verify(d, skip_tests=False):
             res["stable_rc"] = rct
             res["stable_out"] = outt.strip().split("\n")[-3:]
         res["confirmed"] = (rc0 == 0 and rc1 != 0 and (skip_tests or res["stable_rc"] == 0))
+        conf = os.path.join(d, "confirmation.json")
+        old = json.load(open(conf)) if os.path.exists(conf) else {}
+        old.update({k: v for k, v in res.items() if k not in ("dir",)})
+        old["repo_head"] = sh(["git", "-C", "/repo", "rev-parse", "--short", "HEAD"])[1].strip()
+        old["how"] = ("scratch worktree of /repo HEAD: demo on the clean tree (rc 0 expected), git apply patch.diff, demo again "
+                      "(non-zero expected), /work/mut/run_stable.py = the repository's whole pytest suite, all 150 baseline-passing tests must pass")
+        with open(conf, "w") as f:
+            json.dump(old, f, indent=1, sort_keys=True)
         return res
     finally:
         drop_worktree(wt)
@@ -112,6 +119,13 @@ def run_checks(d, props, tier="quick"):
             notes = [l for l in o.split("\n") if l.startswith("# ")]
             out[p] = dict(rc=rc, violations=len(viol), first=(notes[0][:300] if notes else ""), first_line=(viol[0] if viol else ""),
                           wall_s=round(time.time() - t0, 1))
+        det = os.path.join(d, "detection.json")
+        old = json.load(open(det)) if os.path.exists(det) else {}
+        head = sh(["git", "-C", VERIF, "rev-parse", "--short", "HEAD"])[1].strip()
+        for p, v in out.items():
+            old[p + ":" + tier] = dict(v, verif_commit=head)
+        with open(det, "w") as f:
+            json.dump(old, f, indent=1, sort_keys=True)
         return out
     finally:
         drop_worktree(wt)
